@@ -161,7 +161,9 @@ func (t *transport) OnRequest(req *types.HttpContext) {}
 
 // Closes the transport.
 func (t *transport) Close(fn ...types.Callable) {
-	if t.ReadyState() == "closed" || t.ReadyState() == "closing" {
+	// a transport that is closing gracefully (polling waits for the next poll to
+	// carry the close packet) can still be closed at once after Discard()
+	if rs := t.ReadyState(); rs == "closed" || (rs == "closing" && !t.Discarded()) {
 		return
 	}
 	t.SetReadyState("closing")
